@@ -210,6 +210,7 @@ func formatGate(e *Env, rule string) {
 		r.Undecide(rule, key, "anchor not found")
 		return
 	}
+	fn = coreOf(fn)
 	procs := findCalls(fn, "golang.org/x/tools/imports.Process", false)
 	srcs := findCalls(fn, "go/format.Source", false)
 	if len(procs) != 1 || len(srcs) != 1 {
